@@ -168,7 +168,19 @@ def gen_profiles(rng, tier):
             hr = rng.randrange(0, 24)
             h0 = CUM[mth] + 24 * day + hr
             spikes.append([h0, rng.choice([1.0, -1.0]) * spec["scale"] * rng.uniform(1.5, 3.0)])
-        ps.append({"months": rng.choice([12, 24, 24, 36, 13, 25, 120 if tier != "quick" else 24]), "loads": spec, "spikes": spikes})
+        ps.append({"months": rng.choice([12, 24, 24, 36, 13, 25, 120 if tier != "quick" else 24, 6, 11, rng.randrange(1, 12)]), "loads": spec, "spikes": spikes})
+    # the same profile on boreholes that differ only in their short-time response (grout heat capacity), one after the other in one
+    # process: every object's durations are those of ITS OWN response
+    for k in range(1 if tier == "quick" else 4):
+        spec = {"kind": rng.choice(["balanced", "spiky", "mixed_days"]), "scale": 20000.0, "seed": rng.randrange(1, 10 ** 6)}
+        for rc in (3901000.0, 1500000.0, 2600000.0):
+            ps.append({"months": 12, "loads": spec, "spikes": [], "grout_rhocp": rc})
+    # the same profile processed for a horizon that is not a whole number of years and then for a longer one, in one process
+    for k in range(1 if tier == "quick" else 3):
+        spec = {"kind": rng.choice(["balanced", "heating", "spiky"]), "scale": 15000.0, "seed": rng.randrange(1, 10 ** 6)}
+        n1 = rng.choice([18, 14, 21])
+        ps.append({"months": n1, "loads": spec, "spikes": []})
+        ps.append({"months": n1 + rng.choice([12, 7, 16]), "loads": spec, "spikes": []})
     return ps
 
 
@@ -409,6 +421,28 @@ Eval vm_compute in (let '(a, b) := process_two_day_loads rej ext cal dc dh [[0]]
                 chk.cov["correspondence_cases"] = chk.cov.get("correspondence_cases", 0) + 24
 
 
+def csv_time_axis(chk):
+    """the other observation point of C08: the time column of TimeDependentValues.csv of real designs (horizons that are not whole years)"""
+    import csv
+    from configs import cfg
+    horizons = [13, 30] if chk.tier == "quick" else [13, 30, 25, 7, 49]
+    for r in e2e_runs([cfg(months=m, loads={"kind": "balanced", "scale": 20000.0, "seed": 3}) for m in horizons]):
+        if not r.get("ok"):
+            chk.broken.append({"name": "end-to-end run failed", "detail": json.dumps({k: r.get(k) for k in ("exc", "msg")})})
+            continue
+        months = r["cfg"]["simulation"]["num_months"]
+        with open(os.path.join(r["outdir"], "TimeDependentValues.csv")) as f:
+            rows = list(csv.reader(f))[1:]
+        times = [float(x[0]) for x in rows]
+        chk.cov["evaluations"] += 1
+        want_end = closed_lmh(months)
+        if max(times) != want_end and len(chk.violations) < 4:
+            chk.violation("time-csv", r["cfg"], {"last_time_h": max(times)}, f"the time column ends exactly at the last hour of the {months}-month horizon ({want_end} h)")
+        missing = [m for m in range(1, months + 1) if float(closed_lmh(m)) not in times]
+        if missing and len(chk.violations) < 4:
+            chk.violation("time-csv", r["cfg"], {"month_ends_without_a_row": missing[:6]}, "a breakpoint (row) at the end of every calendar month")
+
+
 def run_hybrid_check(chk, which, props_file, extra_models):
     quick = chk.tier == "quick"
     chk.build(props_file, extra=["Model/Hybrid"] + extra_models)
@@ -455,6 +489,8 @@ def run_hybrid_check(chk, which, props_file, extra_models):
         nontrivial += oracle_profile(chk, which, p, o)
     if which == "C07":
         two_day_checks(chk, profs, res["profiles"])
+    if which == "C08":
+        csv_time_axis(chk)
     # listed findings are re-run on their exact input
     for kf in chk.open_findings("hybrid-profile"):
         r = run_impl("hybrid.py", {"profiles": [kf["input"]]})
